@@ -457,39 +457,6 @@ theorem scatter_moleFrac (m M : List ℝ) (hl : M.length = m.length) (h0 : ∀ x
   rw [moleFrac_real, moleFrac_real, scatter_map _ (by simp), scatter_gather_vdiv m M hl h0,
     sum_vdiv_gather m M hl h0]
 
-/-- the component `idx` used for the gas moles is the first kept component -/
-theorem getD_scatter_firstIdx : ∀ (m : List ℝ) (v : List ℝ), (∃ x ∈ m, 0 < x) →
-    (scatter (mask m) v).getD (firstIdx m) 0 = v.getD 0 0 := by
-  intro m
-  induction m with
-  | nil => intro v h; obtain ⟨x, hx, _⟩ := h; simp at hx
-  | cons x xs ih =>
-    intro v h
-    cases xs with
-    | nil =>
-      obtain ⟨a, ha, hpos⟩ := h
-      have : a = x := by simpa using ha
-      subst this
-      rw [mask_cons_pos a [] hpos, mask_nil]
-      cases v <;> simp [scatter, firstIdx]
-    | cons y ys =>
-      by_cases hx : 0 < x
-      · rw [mask_cons_pos x _ hx]
-        have : firstIdx (x :: y :: ys) = 0 := by
-          simp only [firstIdx, Num.real_zero, if_neg (not_le.mpr hx)]
-        rw [this]
-        cases v <;> simp [scatter]
-      · rw [mask_cons_nonpos x _ hx]
-        have : firstIdx (x :: y :: ys) = firstIdx (y :: ys) + 1 := by
-          simp only [firstIdx, Num.real_zero, if_pos (not_lt.mp hx)]
-        rw [this]
-        simp only [scatter, List.getD_cons_succ]
-        apply ih
-        obtain ⟨a, ha, hpos⟩ := h
-        rcases List.mem_cons.mp ha with rfl | ha'
-        · exact absurd hpos hx
-        · exact ⟨a, ha', hpos⟩
-
 theorem scatter_length : ∀ (mk : List Bool) (v : List ℝ), (scatter mk v).length = mk.length := by
   intro mk
   induction mk with
@@ -556,35 +523,22 @@ theorem getD_nonneg (l : List ℝ) (h : ∀ x ∈ l, 0 ≤ x) (i : Nat) : 0 ≤ 
   | none => simp
   | some v => simp; exact h v (List.mem_of_getElem? hi)
 
-/-- the gas moles computed from component `idx` (l.709-710) are `β·N` whenever the rows obey the
-    material balance and the two rows differ in that component -/
-theorem ng_eq (N β ni xgi xli : ℝ) (hN : 0 ≤ N) (hβ : 0 ≤ β) (hbal : N * (β * xgi + (1 - β) * xli) = ni)
-    (hne : xgi ≠ xli) : |(ni - xli * N) / (xgi - xli)| = β * N := by
-  have hd : xgi - xli ≠ 0 := sub_ne_zero.mpr hne
-  have : (ni - xli * N) / (xgi - xli) = β * N := by
-    rw [div_eq_iff hd, ← hbal]; ring
-  rw [this, abs_of_nonneg (mul_nonneg hβ hN)]
-
-/-- back-conversion of mole fractions to phase masses conserves every component -/
+/-- back-conversion of mole fractions and gas fraction to phase masses (`ng = beta N`) conserves every
+    component as soon as the rows obey the component material balance -/
 theorem backConvert_conserves (m M xg xl : List ℝ) (β : ℝ)
-    (hN : 0 ≤ (Num.vdiv m M).sum) (hβ0 : 0 ≤ β)
     (hbal : ∀ i, (Num.vdiv m M).sum * (β * xg.getD i 0 + (1 - β) * xl.getD i 0) = m.getD i 0 / M.getD i 0)
-    (hM0 : ∀ i, M.getD i 0 = 0 → m.getD i 0 = 0)
-    (hne : xg.getD (firstIdx m) 0 ≠ xl.getD (firstIdx m) 0) (i : Nat) :
-    (backConvert m M xg xl).1.getD i 0 = xg.getD i 0 * (β * (Num.vdiv m M).sum) * M.getD i 0 ∧
-    (backConvert m M xg xl).2.getD i 0 = xl.getD i 0 * ((1 - β) * (Num.vdiv m M).sum) * M.getD i 0 ∧
-    (backConvert m M xg xl).1.getD i 0 + (backConvert m M xg xl).2.getD i 0 = m.getD i 0 := by
-  have hng := ng_eq (Num.vdiv m M).sum β ((Num.vdiv m M).getD (firstIdx m) 0) (xg.getD (firstIdx m) 0)
-    (xl.getD (firstIdx m) 0) hN hβ0 (by
-      rw [hbal (firstIdx m)]; unfold Num.vdiv; rw [getD_zipWith_div]) hne
-  have e1 : (backConvert m M xg xl).1.getD i 0 = xg.getD i 0 * (β * (Num.vdiv m M).sum) * M.getD i 0 := by
+    (hM0 : ∀ i, M.getD i 0 = 0 → m.getD i 0 = 0) (i : Nat) :
+    (backConvert m M xg xl β).1.getD i 0 = xg.getD i 0 * (β * (Num.vdiv m M).sum) * M.getD i 0 ∧
+    (backConvert m M xg xl β).2.getD i 0 = xl.getD i 0 * ((1 - β) * (Num.vdiv m M).sum) * M.getD i 0 ∧
+    (backConvert m M xg xl β).1.getD i 0 + (backConvert m M xg xl β).2.getD i 0 = m.getD i 0 := by
+  have e1 : (backConvert m M xg xl β).1.getD i 0 = xg.getD i 0 * (β * (Num.vdiv m M).sum) * M.getD i 0 := by
     unfold backConvert
-    simp only [Num.real_sum, Num.real_abs, Num.vmul, Num.real_zero]
-    rw [getD_zipWith_mul, getD_map0 _ (by simp), hng]
-  have e2 : (backConvert m M xg xl).2.getD i 0 = xl.getD i 0 * ((1 - β) * (Num.vdiv m M).sum) * M.getD i 0 := by
+    simp only [Num.real_sum, Num.vmul]
+    rw [getD_zipWith_mul, getD_map0 _ (by simp)]
+  have e2 : (backConvert m M xg xl β).2.getD i 0 = xl.getD i 0 * ((1 - β) * (Num.vdiv m M).sum) * M.getD i 0 := by
     unfold backConvert
-    simp only [Num.real_sum, Num.real_abs, Num.vmul, Num.real_zero]
-    rw [getD_zipWith_mul, getD_map0 _ (by simp), hng]
+    simp only [Num.real_sum, Num.vmul]
+    rw [getD_zipWith_mul, getD_map0 _ (by simp)]
     ring
   refine ⟨e1, e2, ?_⟩
   rw [e1, e2]
@@ -593,6 +547,20 @@ theorem backConvert_conserves (m M xg xl : List ℝ) (β : ℝ)
   · rw [hMi, hM0 i hMi]; ring
   · have : m.getD i 0 = m.getD i 0 / M.getD i 0 * M.getD i 0 := by field_simp
     rw [this, ← hb]; ring
+
+/-- the formula the code used before commit 87c9b6c (dbm.py l.706-710 of the snapshot): gas moles
+    recovered from the material balance of the first non-zero component alone,
+    `ng = |(n_idx − x_liq,idx N) / (x_gas,idx − x_liq,idx)|` -/
+noncomputable def ngFirstComponent (N ni xgi xli : ℝ) : ℝ := |(ni - xli * N) / (xgi - xli)|
+
+/-- … which is `β N` only if the two mole fractions of that component differ -/
+theorem ngFirstComponent_eq (N β ni xgi xli : ℝ) (hN : 0 ≤ N) (hβ : 0 ≤ β) (hbal : N * (β * xgi + (1 - β) * xli) = ni)
+    (hne : xgi ≠ xli) : ngFirstComponent N ni xgi xli = β * N := by
+  unfold ngFirstComponent
+  have hd : xgi - xli ≠ 0 := sub_ne_zero.mpr hne
+  have : (ni - xli * N) / (xgi - xli) = β * N := by
+    rw [div_eq_iff hd, ← hbal]; ring
+  rw [this, abs_of_nonneg (mul_nonneg hβ hN)]
 
 /-- the four ways `rrBeta` produces its gas fraction -/
 theorem rrBeta_cases (z K : List ℝ) (fuel : Nat) :
@@ -766,10 +734,9 @@ theorem finalCleanup_two_phase (z : List ℝ) (o : MMOut ℝ) (h0 : o.beta ≠ 0
     non-zero components -/
 theorem equilibriumPost_masses (m M : List ℝ) (o : MMOut ℝ)
     (hl : M.length = m.length) (hm : ∀ x ∈ m, 0 ≤ x) (hM : ∀ x ∈ M, 0 < x) (hpos : ∃ x ∈ m, 0 < x)
-    (hrl : o.xg.length = o.xl.length) (hβ0 : 0 ≤ o.beta)
+    (hrl : o.xg.length = o.xl.length)
     (hbal : List.zipWith (fun g l => o.beta * g + (1 - o.beta) * l) o.xg o.xl
-      = moleFrac (gather (mask m) m) (gather (mask m) M))
-    (hne : o.xg.getD 0 0 ≠ o.xl.getD 0 0) (i : Nat) :
+      = moleFrac (gather (mask m) m) (gather (mask m) M)) (i : Nat) :
     (equilibriumPost m M o).mg.getD i 0
       = (scatter (mask m) o.xg).getD i 0 * (o.beta * (Num.vdiv m M).sum) * M.getD i 0 ∧
     (equilibriumPost m M o).ml.getD i 0
@@ -792,9 +759,7 @@ theorem equilibriumPost_masses (m M : List ℝ) (o : MMOut ℝ)
     · rw [hj] at h; exact absurd h (lt_irrefl _)
     · have h' : m.length ≤ j := by rw [← hl]; exact h
       simp [List.getD_eq_getElem?_getD, h']
-  have hne' : (scatter (mask m) o.xg).getD (firstIdx m) 0 ≠ (scatter (mask m) o.xl).getD (firstIdx m) 0 := by
-    rw [getD_scatter_firstIdx m _ hpos, getD_scatter_firstIdx m _ hpos]; exact hne
-  exact backConvert_conserves m M (scatter (mask m) o.xg) (scatter (mask m) o.xl) o.beta hN.le hβ0 hbal' hM0 hne' i
+  exact backConvert_conserves m M (scatter (mask m) o.xg) (scatter (mask m) o.xl) o.beta hbal' hM0 i
 
 theorem zipWith_beta_one (a : List ℝ) : List.zipWith (fun g l => (1:ℝ) * g + (1 - 1) * l) a (zeros a) = a := by
   unfold zeros
